@@ -72,6 +72,24 @@ pub fn b64url_encode(data: &[u8]) -> String {
     s
 }
 
+/// HMAC (RFC 2104) over sha2, written out here so that it shares nothing with the library's signing code
+pub fn hmac(alg: &str, key: &[u8], msg: &[u8]) -> Vec<u8> {
+    use sha2::Digest;
+    fn run<D: Digest>(block: usize, key: &[u8], msg: &[u8]) -> Vec<u8> {
+        let mut k = if key.len() > block { D::digest(key).to_vec() } else { key.to_vec() };
+        k.resize(block, 0);
+        let ipad: Vec<u8> = k.iter().map(|b| b ^ 0x36).collect();
+        let opad: Vec<u8> = k.iter().map(|b| b ^ 0x5c).collect();
+        let inner = D::new().chain_update(&ipad).chain_update(msg).finalize().to_vec();
+        D::new().chain_update(&opad).chain_update(&inner).finalize().to_vec()
+    }
+    match alg {
+        "HS384" => run::<sha2::Sha384>(128, key, msg),
+        "HS512" => run::<sha2::Sha512>(128, key, msg),
+        _ => run::<sha2::Sha256>(64, key, msg),
+    }
+}
+
 pub fn hash(alg: &str, data: &str) -> String {
     match alg {
         "sha-256" => b64url_encode(&Sha256::digest(data.as_bytes())),
